@@ -228,6 +228,9 @@ Section Sound.
 
   Definition r_only (F : list string) (r : res) : bool :=
     negb (unk r) && forallb (fun a => negb (cleared a) && subset (muts a) F) (throws r).
+  (* explicit throw statements only: all of them while nothing has been modified (the guards of a make* method) *)
+  Definition r_guards_first (r : res) : bool :=
+    forallb (fun a => negb (cleared a) && is_nil (muts a)) (xthrows r).
   Definition r_clear_then (F : list string) (r : res) : bool :=
     negb (unk r) && forallb (fun a => if cleared a then subset (muts a) F else is_nil (muts a)) (throws r).
 
@@ -407,7 +410,7 @@ Definition class_check (m : method) : bool :=
   negb (reachable_api m) ||
   (let r := analyse tbl m in
    let k := m_key m in
-   if mem k make_methods then r_clear_then ["llimits"] r
+   if mem k make_methods then r_clear_then ["llimits"] r && r_guards_first r
    else if mem k read_methods then r_clear_then [] r
    else if mem k copy_methods then r_clear_then ["base"] r
    else if mem k limits_first_methods then r_only ["llimits"] r
@@ -478,7 +481,7 @@ Proof.
   intros m Hin Hr fuel st os st' E k.
   pose proof (class_check_forall m Hin) as H. unfold class_check in H. rewrite Hr in H. cbn [negb orb] in H.
   fold k in H. repeat split.
-  - intros Hk. rewrite Hk in H.
+  - intros Hk. rewrite Hk in H. apply andb_true_iff in H. destruct H as [H _].
     destruct (clear_then_sound V empty_store ["llimits"] _ fuel st os st' H E) as [A|A]; [now left|right].
     intros f Hf. apply A. cbn. destruct (String.eqb f "llimits") eqn:Eq; [|reflexivity].
     apply String.eqb_eq in Eq. contradiction.
